@@ -42,6 +42,8 @@ pub enum TOp {
     /// n inserts without sync; keys cycle through `keys` distinct keys (one atomic region
     /// for the scheduler except where the library itself blocks or yields)
     Burst(u16, u8),
+    /// n lookups in a row (keys round robin), one atomic region like Burst
+    GBurst(u16, u8),
 }
 
 impl TOp {
@@ -57,6 +59,7 @@ impl TOp {
             TOp::Iter => "iter".into(),
             TOp::IterHoldGet(k) => format!("iterholdget({k})"),
             TOp::Burst(n, k) => format!("burst({n},{k})"),
+            TOp::GBurst(n, k) => format!("gburst({n},{k})"),
         }
     }
     pub fn parse(s: &str) -> TOp {
@@ -76,8 +79,12 @@ impl TOp {
             "iter" => TOp::Iter,
             "iterholdget" => TOp::IterHoldGet(a[0] as u8),
             "burst" => TOp::Burst(a[0], a[1] as u8),
+            "gburst" => TOp::GBurst(a[0], a[1] as u8),
             _ => panic!("bad thread op {s}"),
         }
+    }
+    fn is_burst(&self) -> bool {
+        matches!(self, TOp::Burst(..) | TOp::GBurst(..))
     }
     fn writes_key(&self) -> Option<u8> {
         match *self {
@@ -171,6 +178,9 @@ struct St {
     /// stutter reduction: per thread (loop marker label, consecutive iterations, grants
     /// to the other threads when the run of iterations began)
     stutter: Vec<(&'static str, u32, u64)>,
+    /// how often in a row a thread was let run again from its yield point because nobody
+    /// else could run
+    solo_spins: Vec<u32>,
 }
 
 pub struct Shared {
@@ -181,6 +191,7 @@ pub struct Shared {
 
 struct AbortUnwind;
 
+const SPIN_LIMIT: u32 = 50;
 const STUTTER_K: u32 = 4;
 const STUTTER_BODY: [&str; 3] = ["chk.wo", "chk.ao", "map.remove_if"];
 
@@ -201,6 +212,7 @@ impl Shared {
                 max_events,
                 granted: vec![0; n],
                 stutter: vec![("", 0, 0); n],
+                solo_spins: vec![0; n],
             }),
             cv: Condvar::new(),
             seq: AtomicU64::new(1),
@@ -234,6 +246,24 @@ impl Shared {
         for t in 0..n {
             if Some(t) != me && Self::enabled_of(st, t) {
                 enabled.push(t);
+            }
+        }
+        // Only threads in a retry loop are left (everybody else has finished or is blocked):
+        // a retry loop may make progress on its own (the full-queue loop of an insert runs
+        // the housekeeping itself on every iteration), so the lowest-numbered spinner is
+        // let run again - no choice point - instead of calling this a livelock at once.
+        // A thread that comes back to its yield point SPIN_LIMIT times in a row without
+        // anyone else having run in between is spinning for good.
+        if enabled.is_empty() {
+            if let Some(t) = (0..n).find(|t| matches!(st.status[*t], Status::Parked(Park::Yield(_), _))) {
+                st.solo_spins[t] += 1;
+                if st.solo_spins[t] <= SPIN_LIMIT {
+                    st.turn = Some(t);
+                    st.grants += 1;
+                    st.granted[t] += 1;
+                    self.cv.notify_all();
+                    return true;
+                }
             }
         }
         if enabled.is_empty() {
@@ -288,6 +318,13 @@ impl Shared {
         st.turn = Some(enabled[c]);
         st.grants += 1;
         st.granted[enabled[c]] += 1;
+        // somebody else runs: the others' spin counts start over
+        let g = enabled[c];
+        for (x, sp) in st.solo_spins.iter_mut().enumerate() {
+            if x != g {
+                *sp = 0;
+            }
+        }
         self.cv.notify_all();
         true
     }
@@ -488,6 +525,14 @@ fn thread_body(c: &SC, clock: &MockClock, cfg: &Cfg, sh: &Arc<Shared>, me: usize
                 drop(it);
                 let _ = first;
                 Obs::Val(g)
+            }
+            TOp::GBurst(n, keys) => {
+                sh.m.lock().unwrap().atomic[me] = true;
+                for i in 0..n {
+                    let _ = c.get(&K::probe((i % keys.max(1) as u16) as u8));
+                }
+                sh.m.lock().unwrap().atomic[me] = false;
+                Obs::Unit
             }
             TOp::Burst(n, keys) => {
                 sh.m.lock().unwrap().atomic[me] = true;
@@ -718,7 +763,7 @@ fn check_history(prog: &Program, all: &[Rec], viol: &mut Vec<Violation>) {
         }
     }
     // values written inside a Burst are not recorded one by one
-    if prog.threads.iter().flatten().any(|o| matches!(o, TOp::Burst(..))) {
+    if prog.threads.iter().flatten().any(|o| o.is_burst()) {
         return;
     }
     let prefix_reads: Vec<&Rec> = all.iter().filter(|r| r.thread == -2).collect();
@@ -940,7 +985,7 @@ fn postlude(prog: &Program, sut: &mut Sut, all: &[Rec], viol: &mut Vec<Violation
     }
     // final state: each key absent or the value of a write nothing follows in real time
     let inserts: Vec<&Rec> = all.iter().filter(|r| matches!(r.op, TOp::Ins(..))).collect();
-    let has_burst = prog.threads.iter().flatten().any(|o| matches!(o, TOp::Burst(..)));
+    let has_burst = prog.threads.iter().flatten().any(|o| o.is_burst());
     for e in snap.entries.iter().filter(|_| !has_burst) {
         let k = e.key as u8;
         match inserts.iter().find(|i| i.vid as u64 == e.value) {
@@ -955,7 +1000,7 @@ fn postlude(prog: &Program, sut: &mut Sut, all: &[Rec], viol: &mut Vec<Violation
         }
     }
     // a last write that was an insert and cannot have been evicted must be there
-    if !prog.threads.iter().flatten().any(|o| matches!(o, TOp::Burst(..))) {
+    if !prog.threads.iter().flatten().any(|o| o.is_burst()) {
         let total_w: u64 = inserts.iter().map(|i| if let TOp::Ins(_, w) = i.op { cfg.pw(crate::sut::weight_of(w)) as u64 } else { 0 }).sum();
         let no_pressure = cfg.cap.map(|c| total_w <= c).unwrap_or(true);
         let invalls: Vec<&Rec> = all.iter().filter(|r| matches!(r.op, TOp::InvAll)).collect();
@@ -1041,7 +1086,7 @@ pub fn explore(prog: &Program, bound: u32, max_schedules: u64, deadline: Instant
     let mut outcomes: HashSet<u64> = HashSet::new();
     let mut sigs: HashSet<(String, String)> = HashSet::new();
     let prune = crate::seqx::Prune::from_env();
-    let max_events = 40000 + prog.threads.iter().flatten().map(|o| if let TOp::Burst(n, _) = o { *n as u64 * 40 } else { 0 }).sum::<u64>();
+    let max_events = 40000 + prog.threads.iter().flatten().map(|o| if let TOp::Burst(n, _) | TOp::GBurst(n, _) = o { *n as u64 * 40 } else { 0 }).sum::<u64>();
     // determinism: the first schedule twice
     journal.write(&witness(prog, &[]));
     let a = run_once(prog, &hasher, &[], max_events);
@@ -1465,6 +1510,14 @@ pub fn family(name: &str, tier: &str) -> Vec<Program> {
                 out.push(Program { cfg: c.clone(), prefix: vec![Op::Ins(0, 1)], threads: vec![vec![TOp::Get(0)], vec![TOp::Ins(1, 1), TOp::Sync]] });
                 out.push(Program { cfg: c.clone(), prefix: vec![Op::Ins(0, 1)], threads: vec![vec![TOp::Ins(2, 1)], vec![TOp::Ins(1, 1), TOp::Sync, TOp::Get(1)]] });
             }
+            // an insert that ran the maintenance itself while another thread refilled the
+            // whole write log behind it: it must run (or wait for) housekeeping again
+            for n in [384u16, 390] {
+                let mut c = base(Some(10), None);
+                c.nkeys = 5;
+                c.beyond = false;
+                out.push(Program { cfg: c, prefix: vec![], threads: vec![vec![TOp::Ins(0, 1)], vec![TOp::Burst(n, 5)]] });
+            }
             // back-pressure with a second thread inside maintenance
             for cap in [Some(1u64), Some(10)] {
                 let mut c = base(cap, None);
@@ -1521,6 +1574,18 @@ pub fn family(name: &str, tier: &str) -> Vec<Program> {
                 let mut c2 = c.clone();
                 c2.beyond = false;
                 out.push(Program { cfg: c2, prefix: vec![Op::Ins(0, 1)], threads: vec![vec![TOp::Get(0)], vec![TOp::Burst(390, 5)]] });
+            }
+        }
+        // more lookups than the read log holds while another thread is parked inside a
+        // maintenance pass it entered through the housekeeper (so nobody else can drain):
+        // lookups beyond the log's capacity are simply not recorded
+        "rdfull" => {
+            for cap in [None, Some(2u64)] {
+                let mut c = base(cap, None);
+                c.nkeys = 3;
+                c.beyond = false;
+                out.push(Program { cfg: c.clone(), prefix: vec![Op::Ins(0, 1)], threads: vec![vec![TOp::Get(0)], vec![TOp::GBurst(400, 3)]] });
+                out.push(Program { cfg: c.clone(), prefix: vec![Op::Ins(0, 1)], threads: vec![vec![TOp::Ins(1, 1)], vec![TOp::GBurst(400, 2), TOp::Get(0)]] });
             }
         }
         other => panic!("unknown program family {other}"),
